@@ -185,6 +185,20 @@ CHECKS = {
              "those are covered by the bitwise oracle. Trusted: sanitizers, harness.",
         technique="Coq proof (invariant over operation sequences) + sanitizer-backed operation-sequence tie",
         ref="6 C17"),
+    "C20": dict(
+        text="Coq: every condition named by the property has its documented (category, code) in the error tables "
+             "regenerated from util/error.hpp and the enum/category definitions on this run "
+             "(C20_every_condition_has_its_documented_code, by vm_compute on the generated data); the builder reports the "
+             "first failing check in its order, an empty species list included (C20_builder_check_order). Tie: each "
+             "condition injected at every position of a valid build/set/solve history on the real classes under "
+             "ASan+UBSan: the observed exception (type, category string, code) equals the model's prediction; oracle: the "
+             "State is unchanged by a rejected call and the history's result is bit-identical to the fault-free one. "
+             "Found and fixed in the repository: empty species list hung Build() (fix: 93d1584); a tolerance on an "
+             "other-phase or parameterised species raised std::out_of_range (fix: 35acb25).",
+        note="The setters' validate-before-write is checked on the implementation (state compared around the call), the model "
+             "has it by construction. Trusted: translator regexes, sanitizers, harness.",
+        technique="Coq proof by computation on tables regenerated by a translator + fault-injection tie under sanitizers",
+        ref="6 C20"),
     "C19": dict(
         text="Coq theorems: every logical element of a dense matrix has its own in-range slot in every layout "
              "(injectivity + range for row-major and grouped, any L>0, any shape); the Axpy/ForEach loops visit exactly the "
